@@ -54,7 +54,7 @@ def _gen_tlc(work, catalogue, shared, o: Outcome, cap):
     shapes = [[_ty(t, keys) for t in sh] for sh in catalogue]
     cfg = (f'INIT Init\nNEXT Next\nCONSTANTS K = 2\nShared = {"TRUE" if shared else "FALSE"}\n'
            'INVARIANT TermsHaveTheSizeOfTheirType\nINVARIANT TypedListsArePatterns\nINVARIANT SolutionsAreTheCommonSupport\n'
-           'INVARIANT ModelUnifierIsMostGeneral\n'
+           'INVARIANT ModelUnifierIsMostGeneral\nINVARIANT ModelGeneralisationInstantiates\n'
            'INVARIANT Dump\nCHECK_DEADLOCK FALSE\n')
     w = work / ('gen_sh' if shared else 'gen_dj')
     prepare_workdir(w)
@@ -257,6 +257,7 @@ def run_part(o: Outcome, tier, seed, work):
     for c in cases:
         kinds[c['kind']] = kinds.get(c['kind'], 0) + 1
     o.extra['axis_algebra_cases'] = kinds
-    o.extra['unify_model_drift'] = sum(1 for v in verdicts.values() if v.get('drift', 'none') != 'none')
+    o.extra['unify_model_drift'] = sum(1 for i, v in verdicts.items() if v.get('drift', 'none') != 'none' and cases[i - 1]['kind'] == 'unify')
+    o.extra['antiunify_model_drift'] = sum(1 for i, v in verdicts.items() if v.get('drift', 'none') != 'none' and cases[i - 1]['kind'] == 'antiunify')
     o.extra['axis_algebra_unify_failures_observed'] = sum(1 for c in cases if c['kind'] == 'unify' and c['out'] == 'ok' and not c['ok'])
     return cases
